@@ -1,6 +1,88 @@
-(* Props/C03.v -- placeholder while the first theorems are being proved. *)
-From LV Require Import Base.Bytes Model.Obj Spec.StrictReader.
+(* Props/C03.v -- property C03: saved files are valid PDF for a strict third-party reader.
+   Statements only; proofs live in Proofs/StrictReaderProofs.v (about the specification reader)
+   and Proofs/SaveStrictProofs.v (about the model of the writer, Model/Save.v). *)
+From LV Require Import Base.Bytes Model.Obj Spec.StrictReader Proofs.StrictReaderProofs.
 
+Local Open Scope N_scope.
+
+(* ------------------------------------------------------------------------------------------ *)
+(* Part 1: what acceptance by the strict reader MEANS (soundness of the specification reader). *)
+(* ./check C03 runs the extracted [strict_load] on the bytes the real crate wrote; these        *)
+(* theorems say which facts about those bytes follow from the answer "ok".                      *)
+(* ------------------------------------------------------------------------------------------ *)
+
+(* (1.1) header + binary comment; startxref holds the offset of the newest cross-reference
+   section; every section (also those reached through Prev) starts at exactly its offset with
+   the keyword xref or the "n g obj" header of a /Type /XRef stream; every in-use entry holds
+   the exact offset of "id gen obj" with the same id and gen; Size exceeds every object number
+   and no number occurs twice in a section; every byte of the file lies in exactly one span. *)
+Theorem C03_accept_sound :
+  forall file d,
+    strict_load file = SOk d ->
+    (exists m rest, file = KW_pdf ++ s_version d ++ rest /\ version_ok (s_version d) = true /\
+                    (exists r1, p_eol rest = Some (x25 :: m ++ r1)) /\ (4 <= length (filter is_high m))%nat) /\
+    find_tail file = Some (s_startxref d) /\
+    (exists newest older, s_revs d = newest :: older /\ r_x newest = s_startxref d /\
+                          s_trailer d = r_trailer newest) /\
+    Forall (starts_at_xref_or_xref_stream file) (s_revs d) /\
+    Forall (fun r => Forall (entry_points_at_header file) (r_entries r)) (s_revs d) /\
+    Forall (fun r => Forall (fun ie => fst ie < r_size r) (r_entries r) /\ NoDup (map fst (r_entries r))) (s_revs d) /\
+    chain 0 (effective (0, 0) (s_spans d)) (lenN file).
+Proof. exact strict_load_sound. Qed.
+
+(* (1.2) what "chain" gives: every position below the end lies in a span, and two different
+   spans of a chain do not overlap. *)
+Theorem C03_chain_covers :
+  forall c l fin, chain c l fin -> forall p, c <= p < fin -> exists a b, In (a, b) l /\ a <= p < b.
+Proof. exact chain_cover. Qed.
+
+Theorem C03_chain_disjoint :
+  forall c l fin, chain c l fin ->
+  forall i j a b a' b', (i < j)%nat -> nth_error l i = Some (a, b) -> nth_error l j = Some (a', b') -> b <= a'.
+Proof. exact chain_disjoint. Qed.
+
+(* (1.3) table entries are exactly 20 bytes: ten digits, space, five digits, space, n|f, 2-byte EOL;
+   a subsection "first count" is followed by exactly count such entries numbered first, first+1, ... *)
+Theorem C03_entry_20_bytes :
+  forall s e r,
+    p_entry s = Some (e, r) ->
+    exists a g k e1 e2,
+      s = a ++ x20 :: g ++ x20 :: k :: e1 :: e2 :: r /\
+      length a = 10%nat /\ length g = 5%nat /\
+      forallb is_digit a = true /\ forallb is_digit g = true /\
+      (k = x6e \/ k = x66) /\
+      ((e1 = x20 /\ (e2 = x0d \/ e2 = x0a)) \/ (e1 = x0d /\ e2 = x0a)).
+Proof. exact p_entry_20. Qed.
+
+Theorem C03_subsection_exact :
+  forall k id s l r,
+    p_entries k id s = Some (l, r) ->
+    exists t, s = t ++ r /\ length t = (20 * k)%nat /\ length l = k /\
+              map fst l = map (fun i => id + N.of_nat i) (seq 0 k).
+Proof. exact p_entries_spec. Qed.
+
+(* (1.4) cross-reference streams: Type XRef, no filter, W = three widths <= 8, and
+   |data| = (sum of the Index counts) * (sum of the widths), one entry per counted number. *)
+Theorem C03_xref_stream_consistent :
+  forall x d data es,
+    decode_xstream x d data = SOk es ->
+    dict_get d N_Type = Some (OName N_XRef) /\ dict_get d N_Filter = None /\
+    exists w1 w2 w3 idx,
+      dict_get d N_W = Some (OArr [OInt (Z.of_N w1); OInt (Z.of_N w2); OInt (Z.of_N w3)]) /\
+      w1 <= 8 /\ w2 <= 8 /\ w3 <= 8 /\
+      lenN data = sum_counts idx * (w1 + w2 + w3) /\
+      N.of_nat (length es) = sum_counts idx.
+Proof. exact decode_xstream_consistent. Qed.
+
+(* (1.5) every stream object reached through an entry carries exactly Length bytes between
+   "stream" EOL and "endstream" (Length direct, or an indirect integer found through the tables). *)
+Theorem C03_stream_lengths :
+  forall file d,
+    strict_load file = SOk d ->
+    Forall (Forall (stream_length_ok file (s_revs d))) (s_located d).
+Proof. exact strict_load_stream_lengths. Qed.
+
+(* non-vacuity: a concrete file is accepted, with its object recovered *)
 Definition ex_file : bytes := Eval cbv in
   bs "%PDF-1.5" ++ [x0a; x25; xbb; xad; xc0; xde; x0a] ++
   bs "1 0 obj" ++ [x0a] ++ bs "<</A 7>>" ++ [x0a] ++ bs "endobj" ++ [x0a] ++
@@ -9,7 +91,17 @@ Definition ex_file : bytes := Eval cbv in
   bs "trailer" ++ [x0a] ++ bs "<</Size 2>>" ++ [x0a] ++ bs "startxref" ++ [x0a] ++ bs "39" ++ [x0a] ++ bs "%%EOF".
 
 Theorem C03_example_accepts :
-  exists d, strict_load ex_file = SOk d /\ s_objects d = [((1, 0), ODict [(bs "A", OInt 7)])]%N.
-Proof. eexists. split; vm_compute; reflexivity. Qed.
+  exists d, strict_load ex_file = SOk d /\ s_objects d = [((1, 0), ODict [(bs "A", OInt 7)])]%N /\
+            s_startxref d = 39.
+Proof. eexists. split; [vm_compute; reflexivity|]. split; vm_compute; reflexivity. Qed.
 
+(* placeholder: part 2 (theorems about Model/Save.v) is added below when proved *)
+
+Print Assumptions C03_accept_sound.
+Print Assumptions C03_chain_covers.
+Print Assumptions C03_chain_disjoint.
+Print Assumptions C03_entry_20_bytes.
+Print Assumptions C03_subsection_exact.
+Print Assumptions C03_xref_stream_consistent.
+Print Assumptions C03_stream_lengths.
 Print Assumptions C03_example_accepts.
